@@ -256,6 +256,13 @@ example :
     (replay true (fun _ => true) evs).map (Option.map fun o => (o.held, o.created, o.handled)) =
       [some (1, 0, []), some (1, 0, []), some (1, 0, []), some (0, 1, [(0, 0), (1, 0)])] := by decide +kernel
 
+/-- a get() that times out before there is an entry leaves the patient get() waiting — and
+answered once the entry exists (`final_ok` covers schedules with such events) -/
+example :
+    let evs : List Ev := [.get 69, .timedOut 69, .feed 69 1, .release]
+    (replay true (fun _ => true) evs).map (Option.map fun o => o.gets) =
+      [some [none], some [none], some [none], some [some 0]] := by decide +kernel
+
 /-- a release with no class loading pending is not an accepted schedule -/
 example : (replay true (fun _ => true) [.feed 69 1, .release, .release]).getLast? = some none := by decide +kernel
 
